@@ -42,6 +42,59 @@ func (eng *Engine) specForFn(fn *ssa.Function) *FuncSpec {
 }
 
 func (e *Exec) callWith(f *frame, in ssa.Instruction, cc *ssa.CallCommon, fnv Val, args []Val, h *Heap, g string) (Val, *Heap, string) {
+	res, hout, gout := e.callWith0(f, in, cc, fnv, args, h, g)
+	if e.topSpec != nil && e.specDepth == 0 && e.pure == 0 && gout != "false" {
+		hout = e.atCallSets(cc, fnv, args, res, hout, gout)
+	}
+	return res, hout, gout
+}
+
+// atCallSets: ghost assignments the contract under verification attaches to calls of a given callee.
+func (e *Exec) atCallSets(cc *ssa.CallCommon, fnv Val, args []Val, res Val, h *Heap, g string) *Heap {
+	var key string
+	for _, c := range e.topSpec.Clauses {
+		if c.Kind != KAtCallSet {
+			continue
+		}
+		if key == "" {
+			key = "?"
+			if cc.IsInvoke() {
+				key = "(" + typeKey(cc.Value.Type()) + ")." + cc.Method.Name()
+			} else if fn, ok := cc.Value.(*ssa.Function); ok {
+				_, key = calleeKeyOf(fn)
+			} else if fnv.Clo != nil {
+				_, key = calleeKeyOf(fnv.Clo.fn)
+			}
+		}
+		if !strings.HasSuffix(key, c.Callee) {
+			continue
+		}
+		full := append([]Val{}, e.topFrame.params...)
+		if cc.IsInvoke() {
+			full = append(full, fnv)
+		}
+		full = append(full, args...)
+		if len(res.Tup) > 0 {
+			full = append(full, res.Tup...)
+		} else if res.T != "" {
+			full = append(full, res)
+		}
+		pkg := e.eng.ld.ssaPkg(e.topSpec.PkgPath)
+		valFn, condFn, varFn := pkg.Func(c.GoName), pkg.Func(c.GoName+"_cond"), pkg.Func(c.GoName+"_var")
+		if valFn == nil || len(valFn.Params) != len(full) {
+			panic(fmt.Sprintf("%s:%d: atcall sets: parameter list does not match the call of %s (%d values)", c.File, c.Line, key, len(full)-len(e.topFrame.params)))
+		}
+		h = h.clone()
+		a := e.addrOf(e.evalSpecVal(varFn, nil, h))
+		cond := e.evalSpec(condFn, full, h, nil)
+		val := e.evalSpecVal(valFn, full, h)
+		old := e.load(h, a)
+		e.storeAt(h, a, e.named("gs", a.Typ, ite(cond, val.T, old)))
+	}
+	return h
+}
+
+func (e *Exec) callWith0(f *frame, in ssa.Instruction, cc *ssa.CallCommon, fnv Val, args []Val, h *Heap, g string) (Val, *Heap, string) {
 	resT := cc.Signature().Results()
 	var rt types.Type = resT
 	if resT.Len() == 1 {
@@ -759,7 +812,8 @@ func (e *Exec) evalSpec(sf *ssa.Function, args []Val, h *Heap, pre *Heap) string
 	e.specDepth++
 	defer func() { e.specDepth-- }()
 	savedPriv := append([]*privRef{}, e.priv...)
-	defer func() { e.priv = savedPriv }()
+	savedAllAllocs := append([]string{}, e.allAllocs...)
+	defer func() { e.priv = savedPriv; e.allAllocs = savedAllAllocs }()
 	if pre != nil && usesOld(sf, map[*ssa.Function]bool{}) {
 		// first evaluation in the pre-state to obtain the values of old(...) arguments
 		old := map[ssa.Value]Val{}
@@ -796,8 +850,10 @@ func (e *Exec) evalModifies(sf *ssa.Function, args []Val, h *Heap) []modTarget {
 	nf := e.newFrame(sf, "")
 	e.inlineStk = append(e.inlineStk, sf)
 	savedPriv := append([]*privRef{}, e.priv...)
+	savedAllAllocs := append([]string{}, e.allAllocs...)
 	e.run(nf, args, h, "true")
 	e.priv = savedPriv
+	e.allAllocs = savedAllAllocs
 	e.inlineStk = e.inlineStk[:len(e.inlineStk)-1]
 	e.specDepth--
 	e.modRec = saved
@@ -1139,7 +1195,8 @@ func (e *Exec) evalSpecVal(sf *ssa.Function, args []Val, h *Heap) Val {
 	e.specDepth++
 	defer func() { e.specDepth-- }()
 	savedPriv := append([]*privRef{}, e.priv...)
-	defer func() { e.priv = savedPriv }()
+	savedAllAllocs := append([]string{}, e.allAllocs...)
+	defer func() { e.priv = savedPriv; e.allAllocs = savedAllAllocs }()
 	nf := e.newFrame(sf, "")
 	e.inlineStk = append(e.inlineStk, sf)
 	res, _, _ := e.run(nf, args, h, "true")
